@@ -106,14 +106,23 @@ CHECKS = {
    note=COMMON_NOTE + "Known finding F9 (hex-looking file names). Dependency by path relies on C03's round trip (F4 region excluded).",
    technique="Lean 4 proof (per reference form, parametric in fs and hash) + byte-exact correspondence + recomputation from files"),
  "C03": dict(
-   text="Partial. Kernel-checked on the schema extracted from the running code: C03_full_fails (create, parse, create of the description with raw content h'0506' gives a "
-        "different envelope: finding F4) and C03_unambiguous_example (h'ff0506' round-trips); round-trip lemmas of the scalar kinds (C03_uint, C03_bstr, C03_uuid). The "
-        "whole-language round-trip theorem is not yet proved. The property is decided on every generated envelope: parse of the real tool vs the model (descriptions equal), "
-        "and the envelope re-created by the real tool from YAML and JSON files, with and without hierarchy expansion, compared span by span (keys 2, 3, 15-23, text-keyed "
-        "members) with the original; failures are accepted only inside the syntactic F4 region predicate.",
+   text="Partial. Proved for all inputs: C03_deser_enc (deserialize_cbor(cbor2.dumps(v)) = v for every well-formed value cbor2 hands over unchanged, every head width and "
+        "nesting) with C03_validate_enc; from it every scalar kind of from_cbor (C03_uint, C03_int, C03_imageSize, C03_tstr, C03_bool, C03_null, C03_bstr, C03_uuid, C03_bchar, "
+        "C03_enum + C03_enum_tables by kernel over the extracted schema) and the description half for the scalar kinds (C03_recreate_*: from_obj(to_obj(n)) = n; C03_enum_names). "
+        "Inductive read-back steps (ReadsBack.lean, ReadsKv.lean): the decoder builds exactly the node create built, closed under byte-string wrapping, tags, lists, positional "
+        "structures (also with a repeating member occurring zero times), [code, argument] pairs, integer-keyed maps and unions given that earlier alternatives reject. Assembled "
+        "on the schema extracted from the running code (class numbers by unification from schema.envelope): C03_digest_current, C03_auth_wrapper_current, "
+        "C03_manifest_head_current and C03_minimal_envelope_current (for every digest algorithm, digest value, version and sequence number the envelope class builds from the "
+        "smallest envelope a node whose own encoding is that envelope). Kernel-checked: C03_full_fails (raw content h'0506' does not round-trip: finding F4) and "
+        "C03_unambiguous_example. Not a theorem: the induction applying the steps at every node of the whole language (per-union rejection premises - false inside F4 -, text-keyed "
+        "and flattened maps, grouped lists, the to_obj / from_obj half for containers). The composite is decided on every generated envelope: parse of the real tool vs the model "
+        "(descriptions equal), and the envelope re-created by the real tool from YAML and JSON files, with and without hierarchy expansion, compared span by span (keys 2, 3, 15-23, "
+        "text-keyed members) with the original, incl. envelopes signed by the real command with all five algorithms; failures are accepted only inside the syntactic F4 region predicate.",
    design="4 C03",
-   note=COMMON_NOTE + "Known finding F4 (region predicate ambiguous_positions); fixed finding F4c. No whole-language theorem yet: the deciding evidence is the correspondence.",
-   technique="Lean 4 (kernel-evaluated witnesses over the generated schema, scalar round-trip lemmas) + model/implementation correspondence on parse and on parse∘create"),
+   note=COMMON_NOTE + "Known finding F4 (region predicate ambiguous_positions, incl. the null case at a component part); fixed finding F4c. The whole-language induction is open: "
+        "the deciding evidence for the composite is the correspondence.",
+   technique="Lean 4 proof (decode-after-encode for all values, read-back steps closed under the containers, whole-envelope statement assembled on the generated schema, "
+             "kernel-evaluated witness of F4) + model/implementation correspondence on parse and on create after parse"),
  "C04": dict(
    text="Lean theorems for every signature primitive: C04_appended (for an envelope without a COSE_Sign1, the output is the same tag over the same map with only the value of key 2 "
         "replaced by the same wrapper list plus one element bstr .cbor #6.18([protected, {}, nil, sig]), sig = primitive applied to the Sig_structure of the envelope's own digest), "
